@@ -331,7 +331,26 @@ where
     /// assert!(!n1.is_connected(n2.key()));
     /// ```
     pub fn disconnect(&self, other: &K) -> Result<E, Error> {
-        self.inner.2.borrow_mut().remove_undirected(other)
+        match self.find_adjacent(other) {
+            Some(other) => {
+                // Both endpoints store one half of the edge: a half received from
+                // `other` pairs with a half `other` created itself and vice versa.
+                // Remove both halves (each guard is released before the next).
+                let removed = self.inner.2.borrow_mut().remove_inbound(other.key());
+                match removed {
+                    Ok(edge) => {
+                        other.inner.2.borrow_mut().remove_outbound(self.key())?;
+                        Ok(edge)
+                    }
+                    Err(_) => {
+                        let edge = self.inner.2.borrow_mut().remove_outbound(other.key())?;
+                        other.inner.2.borrow_mut().remove_inbound(self.key())?;
+                        Ok(edge)
+                    }
+                }
+            }
+            None => Err(Error::EdgeNotFound),
+        }
     }
 
     /// Removes all inbound and outbound connections to and from the node.
